@@ -228,7 +228,10 @@ impl<'t, 'a, 'g> Gen<'t, 'a, 'g> {
             3 => {
                 // unary on numbers / coercing unary on primitives
                 let ops = ["-", "+", "~"];
-                let op = ops[self.rr_pick("num-unary", ops.len())];
+                let mut op = ops[self.rr_pick("num-unary", ops.len())];
+                if op == "~" && self.gated("bitwise-large-operands") {
+                    op = "-";
+                }
                 if self.tape.chance(1, 3) {
                     let (e, t) = self.prim_expr(d);
                     if t == Ty::Str && self.gated("tonumber-string-whitespace") {
@@ -583,6 +586,7 @@ impl<'t, 'a, 'g> Gen<'t, 'a, 'g> {
                             self.tag("obj:quoted-key");
                             parts.push(format!("\"{}\": {}", k, self.expr(t, d)));
                         }
+                        _ if self.gated("obj-getter-copied-raw") => parts.push(format!("{}: {}", k, self.expr(t, d))),
                         _ => {
                             // shorthand if a variable of that name and type exists, else getter
                             self.tag("obj:getter");
